@@ -1781,12 +1781,20 @@ class AstEval:
     async def ast_dict(self, arg):
         """Evaluate dict."""
         val = {}
+        pairs = []
         for key_ast, val_ast in zip(arg.keys, arg.values):
-            this_val = await self.aeval(val_ast)
             if key_ast is None:
+                val.update(pairs)
+                pairs = []
+                this_val = await self.aeval(val_ast)
+                if not hasattr(this_val, "keys"):
+                    raise TypeError(f"'{type(this_val).__name__}' object is not a mapping")
                 val.update(this_val)
             else:
-                val[await self.aeval(key_ast)] = this_val
+                # the key is evaluated before the value
+                key = await self.aeval(key_ast)
+                pairs.append((key, await self.aeval(val_ast)))
+        val.update(pairs)
         return val
 
     async def dictcomp_loop(self, generators, key, value):
